@@ -64,6 +64,8 @@ class C02(Check):
         K = 1 if tier == 'quick' else 2
         for sp in catalogue(K):
             jobs.append(line_job(sp, mons, e2=3 if tier == 'quick' else 10, max_states=400000, max_seconds=900))
+        # two deviations on the smallest maintenance line (failure placed inside a shutdown / work order)
+        jobs.append(line_job(S.MAINT(K + 1, n=1), mons, e2=3, max_states=400000, max_seconds=900))
         nmax = 1 if tier == 'quick' else 2
         for sp, ok in S.ser_family(n_max=nmax):
             if ok:
